@@ -411,6 +411,10 @@ var regressionHistories = [][]string{
 	// adfdf7d: NFSv4.1 LOCK new_lock_owner then LOCKT by the same owner
 	{"v41", "reg 0 0", "open 1 0 0 1 3 0 h 1 0", "lock 2 1 0 2 0 10", "lockt 0 0 0 1 2 0 10", "lockt 0 0 1 1 2 0 10"},
 	{"v40", "reg 0 0", "open 1 0 0 1 3 0 n 1 0", "oconf 1", "lock 2 1 0 2 0 10", "lockt 0 0 0 1 2 0 10", "lockt 0 0 1 1 2 0 10"},
+	// OPEN with CLAIM_PREVIOUS and a delegation type is refused (RECLAIM_BAD) and leaves nothing open:
+	// without state to reclaim, and with the owner having the file open
+	{"v41", "reg 0 0", "open 1 0 0 1 3 0 p 2 0 dt=1", "open 2 0 0 1 3 0 h 2 0", "open 3 0 0 1 1 0 p 2 0 dt=2", "open 4 0 0 1 1 0 p 2 0", "close 2"},
+	{"v40", "reg 0 0", "open 1 0 0 1 3 0 p 2 0 dt=1", "open 2 0 0 1 3 0 n 2 0", "oconf 2", "open 3 0 0 1 1 0 p 2 0 dt=2", "open 4 0 0 1 1 0 p 2 0", "close 2"},
 	// 4815fef: NFSv4.1 FREE_STATEID of a lock state ID that still holds locks (NFS4ERR_LOCKS_HELD, nothing
 	// freed: the lock still blocks another owner; after LOCKU the state ID can be freed)
 	{"v41", "reg 0 0", "open 1 0 0 1 3 0 h 2 0", "lock 2 1 0 2 0 5", "free 2", "lockt 0 0 1 2 2 0 5", "io 3 w 2 2", "locku 2 0 max", "free 2", "io 4 w 2 2"},
